@@ -103,9 +103,11 @@ pub struct TxCfg {
 
 pub const CFG_DEFAULT: TxCfg = TxCfg { name: "v2", version: 2, lock_time: 10, seq_older: 5, seq_other: 0xffff_fffe };
 /// Transactions in which some time-locked branch must NOT be taken (BIP65 / BIP68 / BIP112 rules).
-pub const CFGS_LOCKS: [TxCfg; 7] = [
+pub const CFGS_LOCKS: [TxCfg; 9] = [
     CFG_DEFAULT,
     TxCfg { name: "version1", version: 1, lock_time: 10, seq_older: 5, seq_other: 0xffff_fffe },
+    TxCfg { name: "version0", version: 0, lock_time: 10, seq_older: 5, seq_other: 0xffff_fffe },
+    TxCfg { name: "version3", version: 3, lock_time: 10, seq_older: 5, seq_other: 0xffff_fffe },
     TxCfg { name: "sequence4", version: 2, lock_time: 10, seq_older: 4, seq_other: 0xffff_fffe },
     TxCfg { name: "locktime9", version: 2, lock_time: 9, seq_older: 5, seq_other: 0xffff_fffe },
     TxCfg { name: "final-sequences", version: 2, lock_time: 10, seq_older: 0xffff_ffff, seq_other: 0xffff_ffff },
